@@ -236,8 +236,23 @@ func c17Run(i int64, seed uint64, r *fw.Rec) {
 			pat = "(" + t + ")(?:c)|(" + t + ")"
 		}
 	}
+	anchoredLiteral := false
+	if g.r.Intn(12) == 0 {
+		// a literal anchored at one or both ends: it matches only there, not
+		// wherever the literal occurs
+		t := g.r.Pick("a", "b", "ab", "abc", "a{2}", "(?:ab)", "b/", "é")
+		t = strings.ReplaceAll(t, "/", "\\/")
+		g.groups = 0
+		g.tags["anchored-literal"] = true
+		anchoredLiteral = true
+		pat = []string{"^" + t + "$", "^" + t, t + "$", "^" + t + "$"}[g.r.Intn(4)]
+	}
 	flags := rr.Pick("", "", "i", "m", "s", "im", "is", "ms", "ims")
 	s := g.subject()
+	if anchoredLiteral && g.r.Bool() {
+		// ... in a subject that has the literal in the middle
+		s = g.r.Pick("b", "c", "ab", "\n", "") + g.r.Pick("a", "b", "ab", "abc", "aa", "b/", "é") + g.r.Pick("a", "c", "x", "\n", "")
+	}
 	goPat := pat
 	if flags != "" {
 		goPat = "(?" + flags + ")" + pat
